@@ -43,14 +43,22 @@ def cfg_ints(spec):
     return out
 
 
-def make_spec(rng, shape=None, eps=None, handlers=None):
+def make_spec(rng, shape=None, eps=None, handlers=None, profile=None):
     shape = shape or rng.weighted([(4, "std"), (3, "long"), (2, "sparse"), (1, "tiny"), (3, "random")])
     if eps is None:
         eps = rng.weighted([(3, []), (4, [["in", 1, 64], ["out", 2, 64]]), (2, [["in", 3, 16]]),
                             (1, [["in", 1, 32], ["out", 1, 32], ["sig", 4, 8]])])
     if handlers is None:
         handlers = rng.weighted([(5, []), (2, [["zlpreg", 2, 0x20]]), (1, [["zlpreg", 1, 0x22], ["zlpreg", 2, 0x22]])])
-    return {"shape": shape, "desc": DH.descriptor_table(shape, rng), "eps": eps, "handlers": handlers}
+    spec = {"shape": shape, "desc": DH.descriptor_table(shape, rng), "eps": eps, "handlers": handlers}
+    if profile == "c07":
+        # C07 wants multi-packet control reads in most cases (other-endpoint traffic BETWEEN the data-stage INs):
+        # give descriptor sets without a descriptor longer than two packets one more (a HID-report-like blob)
+        r2 = rng.fork("c07-long")
+        if max(len(b) for _t, _i, b in spec["desc"]) <= 128 and r2.chance(75):
+            n = r2.choice([65, 100, 128, 129, 150, 192, 200, 228])
+            spec["desc"] = spec["desc"] + [[0x22, 0, [n & 0xFF, 0x22] + [(i * 13 + n) & 0xFF for i in range(n - 2)]]]
+    return spec
 
 
 def claimed_by_extra(spec, su):
@@ -120,16 +128,24 @@ class Host:
         self.toggle = {}
         self.p_abandon = {"c07": 12, "c08": 10, "c10": 6}.get(profile, 10)
         self.p_foreign = {"c07": 35, "c08": 45, "c10": 20}.get(profile, 30)
+        # between the IN transactions of a device-to-host data stage (C07: "tokens for other endpoints never disturb")
+        # (the C07 emphasis applies to this class only: subclasses that override foreign() -- devx_util.FullHost,
+        # c57.SerialHost -- keep their own mix and their random stream)
+        self.c07_emphasis = profile == "c07" and type(self).foreign is Host.foreign
+        self.p_foreign_data = 55 if self.c07_emphasis else self.p_foreign
+        self.foreign_log = []
+        self.no_eps = [e for e in range(1, 16) if e not in [x[1] for x in spec["eps"]]]
 
     def tag(self, t):
         self.tags.add(t)
 
     # -- traffic that does not belong to the control transfer (legal between transactions)
-    def foreign(self):
+    def foreign(self, k=None):
         rng = self.rng
-        k = rng.weighted([(6, "bulk_in"), (4, "bulk_out"), (3, "other_dev"), (2, "noep"), (2, "sof"), (2, "raw"), (1, "quiet"),
-                          (1, "other_dev_setup")])
+        k = k or rng.weighted([(6, "bulk_in"), (4, "bulk_out"), (3, "other_dev"), (2, "noep"), (2, "sof"), (2, "raw"), (1, "quiet"),
+                          (1, "other_dev_setup"), (5, "ping_other"), (3, "bare_token")])
         self.tag("foreign:" + k)
+        self.foreign_log.append(k)
         if k == "bulk_in" and self.in_eps:
             ep = rng.choice(self.in_eps)
             for e in self.stream_in:
@@ -174,6 +190,24 @@ class Host:
             yield ["sof", rng.below(2048)]
         elif k == "raw":
             yield ["raw", self.raw_packet()]
+        elif k == "ping_other":
+            # the host's flow-control probe for ANOTHER endpoint of this device (an OUT stream endpoint answers ACK/NAK,
+            # IN endpoints and missing endpoints stay silent), optionally followed by the OUT transaction it announces
+            cands = [e[1] for e in self.spec["eps"]] + [e[1] for e in self.out_eps] * 2 + [rng.choice(self.no_eps)]
+            ep = rng.choice(cands)
+            r = yield ["tok", P, self.addr, ep]
+            oe = [e for e in self.out_eps if e[1] == ep]
+            if oe and r.resp.is_hs(ACK) and rng.chance(50):
+                self.tag("foreign:ping-then-out")
+                yield ["tok", O, self.addr, ep]
+                t = self.toggle.get(ep, 0)
+                r = yield ["data", D1 if t else D0, rng.bytes(rng.choice([0, 1, 8, oe[0][2]])), int(rng.chance(92))]
+                if r.resp.is_hs(ACK):
+                    self.toggle[ep] = t ^ 1
+        elif k == "bare_token":
+            # a token for another endpoint whose transaction the host does not continue (no data packet / no handshake)
+            ep = rng.choice([e[1] for e in self.spec["eps"]] + [rng.choice(self.no_eps)])
+            yield ["tok", rng.choice([I, O, P]), self.addr, ep]
         else:
             yield ["quiet"]
 
@@ -200,9 +234,12 @@ class Host:
             return U.token_packet(rng.choice([I, O, S]), self.addr, 0) + [rng.below(256)]
         return [U.pid_byte(rng.choice([ACK, NAK, STALL]))] + rng.bytes(rng.range(1, 2))
 
-    def maybe_foreign(self):
-        while self.rng.chance(self.p_foreign):
-            yield from self.foreign()
+    def maybe_foreign(self, p=None, prefer=None):
+        while self.rng.chance(self.p_foreign if p is None else p):
+            if prefer and self.c07_emphasis and self.rng.chance(35):
+                yield from self.foreign(prefer)
+            else:
+                yield from self.foreign()          # subclasses override foreign() without the argument
 
     def bus_reset(self):
         self.tag("reset")
@@ -245,12 +282,20 @@ class Host:
         if rng.chance(self.p_abandon):
             self.tag("abandon:after-setup")
             return
+        mark = len(self.foreign_log)
         yield from self.maybe_foreign()
         stalled = False
         # ---- data stage
         if length and is_in:
             total = 0
             for _k in range(rng.choice([1, 2, 3, 6, 40])):
+                if _k:
+                    for fk in set(self.foreign_log[mark:]):
+                        self.tag("data-in:between-ins:" + fk)
+                else:
+                    for fk in set(self.foreign_log[mark:]):
+                        self.tag("data-in:before-first-in:" + fk)
+                mark = len(self.foreign_log)
                 r = yield ["tok", I, self.addr, 0]
                 if r.resp.is_data:
                     h = rng.weighted([(80, "ack"), (8, "corrupt"), (8, "none"), (4, "nak")])
@@ -277,12 +322,14 @@ class Host:
                 if rng.chance(self.p_abandon // 2):
                     self.tag("abandon:in-data")
                     return
-                yield from self.maybe_foreign()
+                yield from self.maybe_foreign(self.p_foreign_data, "ping_other" if self.c07_emphasis else None)
         elif length:
             for _k in range(rng.choice([1, 1, 2])):
                 if rng.chance(6):
                     self.tag("ping")
                     yield ["tok", P, self.addr, 0]
+                    if self.c07_emphasis:
+                        yield from self.maybe_foreign()
                 yield ["tok", O, self.addr, 0]
                 yield ["data", rng.choice([D0, D1]), rng.bytes(min(length, rng.choice([1, 8, 8, 64]))), int(rng.chance(90))]
                 if rng.chance(self.p_abandon // 2):
@@ -418,6 +465,22 @@ class Transfer:
         else:
             self.unsupported = claimed_by_extra(spec, su) == 0
         self.clean = True                 # no SETUP token / reset since the SETUP was ACKed
+        # ---- host-side view of a device-to-host data stage (C07: every data-stage IN is answered and the stage is
+        #      neither advanced, restarted nor ended by traffic for other endpoints / other devices)
+        self.tracked = (self.type == 0 and self.request in (0, 6, 8) and not self.unsupported and self.in_data
+                        and claimed_by_extra(spec, su) == 0)
+        self.descriptor = None            # GET_DESCRIPTOR: the bytes the host expects (None: no such descriptor -> STALL)
+        if self.tracked and self.request == 6:
+            for dt, di, b in spec["desc"]:
+                if dt == (self.value >> 8) and di == (self.value & 0xFF):
+                    self.descriptor = list(b)
+                    break
+        self.acked = 0                    # data-stage packets the host has ACKed
+        self.data_seen = False            # a data-stage IN was answered with DATA
+        self.data_done = False            # the host ACKed a short packet / all wLength bytes: the data stage is over
+        self.pending_k = None             # index of the data-stage IN whose DATA answer the host may ACK next
+        self.pending_len = 0
+        self.between = []                 # events since the previous data-stage transaction (for the report)
 
 
 def monitor(log, spec):
@@ -427,6 +490,20 @@ def monitor(log, spec):
     def fail(prop, k, sig, what):
         if len(fails[prop]) < 5:
             fails[prop].append({"cycle": k, "sig": sig, "what": "event %d %r -> %r: %s" % (k, log[k].event, log[k].resp, what)})
+
+    def between(t):
+        if not t.between:
+            return ""
+        return "; since the previous control transaction the bus carried " + ", ".join(t.between[-6:])
+
+    def short(ev, resp):
+        if ev[0] == "tok":
+            return "%s(addr %d, ep %d)->%r" % ({S: "SETUP", I: "IN", O: "OUT", P: "PING"}.get(ev[1], ev[1]), ev[2], ev[3], resp)
+        if ev[0] == "data":
+            return "DATA[%d]->%r" % (len(ev[2]), resp)
+        if ev[0] == "hs":
+            return "HS(%d)" % ev[1]
+        return ev[0]
 
     known_eps = {e[1] for e in spec["eps"]}
     addr, cfgv = 0, 0              # registers after the previous event
@@ -442,6 +519,16 @@ def monitor(log, spec):
             cur.status_zlp_pending = False
         if resp.kind == DH.RESP_GARBAGE:
             fail("C07", k, "c07-malformed-transmission", "the device transmitted something that is not one well-formed packet")
+        if cur is not None:
+            # the host's ACK of a data-stage packet is the event directly after the IN token that was answered with DATA
+            if cur.pending_k is not None:
+                if cur.pending_k == k - 1 and kind == "hs" and ev[1] == ACK and tok == (I, 0):
+                    cur.acked += 1
+                    if cur.pending_len < 64 or 64 * cur.acked >= cur.length or cur.request != 6:
+                        cur.data_done = True
+                cur.pending_k = None
+            elif not (kind == "tok" and ev[2] == addr and ev[3] == 0):
+                cur.between.append(short(ev, resp))
         # ---------------- bookkeeping + C07 / C10 on the control endpoint's answers
         if kind == "tok":
             pid, a, ep = ev[1], ev[2], ev[3]
@@ -471,7 +558,40 @@ def monitor(log, spec):
                             elif first and t.type == 0 and t.request in (0, 6, 8) and t.clean:
                                 if not (resp.is_data or resp.is_hs(STALL)):
                                     fail("C07", k, "c07-first-data-in-not-answered",
-                                         "first data-stage IN of a fresh %r transfer got no DATA/STALL" % (t.su,))
+                                         "first data-stage IN of a fresh %r transfer got no DATA/STALL%s" % (t.su, between(t)))
+                            # every data-stage IN of a running device-to-host data stage is answered, with the packet the
+                            # host expects next -- whatever was on the bus for other endpoints / devices in between
+                            if t.tracked and t.clean and not t.stalled and not t.data_done:
+                                if resp.is_hs(STALL):
+                                    if t.data_seen or (t.request == 6 and t.descriptor is not None) or t.request != 6:
+                                        fail("C07", k, "c07-data-stage-disturbed",
+                                             "data-stage IN of %r STALLed although the request has data to return%s"
+                                             % (t.su, between(t)))
+                                    t.stalled = True
+                                elif not resp.is_data:
+                                    if not first:
+                                        fail("C07", k, "c07-data-in-not-answered",
+                                             "data-stage IN of the running %r transfer (%d packets ACKed so far, data stage not "
+                                             "finished, host still in the data stage) got no DATA%s" % (t.su, t.acked, between(t)))
+                                else:
+                                    t.data_seen = True
+                                    if t.request == 6 and t.descriptor is not None:
+                                        want = t.descriptor[:t.length][64 * t.acked:64 * t.acked + 64]
+                                        wpid = D1 if t.acked % 2 == 0 else D0
+                                        if resp.pid != wpid or list(resp.payload) != want:
+                                            fail("C07", k, "c07-data-stage-disturbed",
+                                                 "data-stage IN of %r after %d ACKed packets answered with DATA%d, %d bytes "
+                                                 "(%s…); the host expects DATA%d, %d bytes (%s…): the stage was restarted, "
+                                                 "advanced or skipped%s"
+                                                 % (t.su, t.acked, 1 if resp.pid == D1 else 0, len(resp.payload),
+                                                    bytes(resp.payload[:4]).hex(), 1 if wpid == D1 else 0, len(want),
+                                                    bytes(want[:4]).hex(), between(t)))
+                                    elif t.request == 6:
+                                        fail("C07", k, "c07-data-stage-disturbed",
+                                             "GET_DESCRIPTOR %r for a descriptor that does not exist answered with DATA%s"
+                                             % (t.su, between(t)))
+                                    t.pending_k, t.pending_len = k, len(resp.payload)
+                            t.between = []
                         elif t.in_data:
                             if resp.is_data:
                                 fail("C07", k, "c07-data-after-status-began", "IN answered with DATA after the host moved to the status stage")
@@ -522,6 +642,9 @@ def monitor(log, spec):
                     t = cur
                     if t.in_data:
                         # status stage OUT
+                        if t.tracked and t.clean and not t.stalled and ev[3] and not t.answered_status and not resp.is_hs(ACK):
+                            fail("C07", k, "c07-status-out-not-acked",
+                                 "the first well-formed status OUT of the fresh %r transfer was not ACKed%s" % (t.su, between(t)))
                         if t.unsupported:
                             if resp.is_hs(ACK) or resp.is_data:
                                 fail("C10", k, "c10-unsupported-answered", "unsupported request %r: status OUT answered" % (t.su,))
@@ -599,7 +722,7 @@ def run_dev_case(desc, prop):
     elif mode == "wild":
         spec = make_wild_spec(rng.fork("spec"))
     else:
-        spec = make_spec(rng.fork("spec"))
+        spec = make_spec(rng.fork("spec"), profile=desc.get("profile"))
     h = DH.DevHarness(spec, rng.fork("timing"))
     if desc.get("stimulus"):
         script = [DH.decode_event(row[3:]) for row in desc["stimulus"]]
@@ -649,7 +772,16 @@ def run_dev_case(desc, prop):
 RULE = ("cases = (descriptor-set shape, extra endpoints, extra request handlers) x host script; 'legal' scripts are adaptive "
         "LegalHost schedules (control transfers with SETUP retries, abandoned transfers, lost/corrupted handshakes, bulk "
         "IN/OUT and other-device traffic between control stages, bus resets; every generated event is checked against the "
-        "Lean predicate legalEvent), 'wild' scripts ignore transaction formats (correspondence only)")
+        "Lean predicate legalEvent), 'wild' scripts ignore transaction formats (correspondence only); between ALL "
+        "transactions of a control transfer (after the SETUP, between the IN transactions of a device-to-host data stage "
+        "-- there with raised probability in the C07 profile, whose descriptor sets get a 65..228-byte descriptor so that "
+        "multi-packet reads are common --, before and between the status attempts) the host interleaves traffic that is not "
+        "the transfer's: PING tokens to other endpoints of the device (existing OUT/IN endpoints and missing ones, "
+        "optionally followed by the OUT transaction), bare IN/OUT/PING tokens to other endpoints without data/handshake, "
+        "complete bulk IN/OUT transactions, transactions of other devices, SOFs, malformed packets; the monitor judges "
+        "every data-stage IN of a running GET_STATUS/GET_DESCRIPTOR/GET_CONFIGURATION read (answered with DATA, and for "
+        "GET_DESCRIPTOR with exactly the next 64-byte slice and PID the host expects from its own count of ACKed packets) "
+        "and the first well-formed status OUT (ACKed)")
 ASSUMPTIONS = [
     "LegalHost (Model/Device/Control.lean legalEvent): data packets only directly after an OUT/SETUP token (or as another "
     "device's answer), host handshakes only directly after a DATA packet of the device (or another device's), SETUP tokens "
